@@ -28,6 +28,30 @@ from .interp import Interp, function_ast, module_ast
 from .sym import Inapplicable, PathEnd, SBool, SInt, SNum, SStr, SEnum, Digits, Fmt, Lit, cur
 
 
+_STUB_NAMES_OK = {}
+
+
+def require_callees(contracts):
+    """every callee a contract replaces by a stub (keyed 'module:Qual.name') must still exist under that name in the tree
+    under check: a stub for a name that is gone would silently never run, and the contract would then judge the real callee
+    by the stub's protocol - a renamed private helper must make the contract *undecided*, not a violation"""
+    import importlib
+    for key in list(contracts):
+        if not isinstance(key, str) or ":" not in key:
+            continue
+        if True:
+            mod, qual = key.split(":", 1)
+            try:
+                obj = importlib.import_module(mod)
+                for part in qual.split("."):
+                    obj = getattr(obj, part)
+                ok = type(obj).__name__ != "MissingFunction"      # (the placeholder cli.py puts where a props module names something that is gone)
+            except Exception:
+                ok = False
+        if not ok:
+            raise Inapplicable(f"stubbed callee {key} no longer exists under this name")
+
+
 class Raised:
     """Outcome of c.call when the function raised a declared exception."""
 
